@@ -73,6 +73,16 @@ CHECKS = {
     technique='TLA+ spec HaloUnits.tla: column->unit-kind table and exact rational Value formulas with TLC-checked theorems (on/off factor, principal dispersions sum) and TLC-emitted expected values; synthetic catalogs carrying the sampled stored values loaded and compared',
     text='TLC checks that the kind table classifies every column once, that on/off loads differ by exactly the unit factor of the kind, and the sum-of-squares identity of the principal dispersions, and emits Value for a grid of stored samples (raw n/64, int16 over its full range, reference r100/sigmav3d) x 4 (BoxSize, VelZSpace_to_kms) pairs with Box != Vel. Synthetic catalogs carrying exactly those stored values in every column are loaded with convert_units on/off x cleaned on/off and as a light-cone catalog; all 80+ columns are compared with Value (2e-6), the identity is checked on the loaded numbers, plain and cleaning columns must be unchanged.',
     note='Transcription decisions (sigman = ratio to unit box; cleaning and light-cone columns Plain) are stated in DESIGN.md.'),
+ 'C09': dict(
+    design='DESIGN.md §5 C09',
+    technique='TLA+ spec HodSelect.tla: TLC enumerates every abstract host (slice widths incl. empty slices x random number incl. 0 and every edge) with its acceptable outcomes and checks at-most-one / later-tracer / nestedness theorems; abstract hosts concretised on the real gen_gal_cat with widths from the package occupation functions',
+    text='TLC enumerates all 2112 abstract hosts and proves AtMostOne, LaterNoChange and NestedFirst on the stacking rule. Every abstract host is realised three ways (midpoint, just beyond the lower edge, just inside the upper edge; edges and 0 exactly) on random masses / assembly-bias / conformity / rank terms, for centrals and satellites, all 7 tracer subsets, box observer and light-cone origin, RSD on/off (34 650 hosts quick): which host carries which tracer, that no host carries two, row order (centrals in halo order, then satellites in particle order), Ncent, host id and mass, positions and the velocity-bias and RSD formulas (line of sight only, wrap) are compared with the specification.',
+    note='Slice widths are computed with the package\'s own occupation functions using the argument assembly documented in the property; a random number exactly on an edge may select either neighbour; NFW satellite path excluded.'),
+ 'C10': dict(
+    design='DESIGN.md §5 C10',
+    technique='TLA+ spec TwoPass.tla: TLC explores every interleaving of the two-pass count/fill with private prefix offsets and proves block / thread-split arithmetic for all sizes; gen_gal_cat compared bit-for-bit across 1..16 threads; schedule replay of fast_concatenate',
+    text='TLC explores all interleavings of T<=3 (4) workers over every classification of <=5 (6) hosts: blocks partition the hosts, offsets stay in bounds, no slot written twice, result = hosts in index order (shared-counter and wrong-prefix variants rejected), and proves that rint(linspace) blocks partition 0..H (H<=80/300, T<=32) and that fast_concatenate\'s proportional split copies every index exactly once (N1,N2<=24/48, T<=16). gen_gal_cat is run with Nthread=1..16 on table sizes 0,1,2,5,15,17,33,101 (+more thorough) x tracer subsets x rsd/observer/ranks: every column, row order and Ncent bit-identical to one thread; fast_concatenate equals numpy for all small (N1,N2,T); conflict-directed and random schedules replayed on its real source with sentinel outputs.',
+    note='Compiled runs do not force interleavings; forced schedules use the interpreted source.'),
 }
 NA = [
  dict(property_id='C18', reason='Pure real-valued geometry (square roots, sines, cross products) on a fixed finite domain of 65 340 codes: no state, order, schedule or index structure for a TLA+ transition system, and orthonormality/coverage are floating-point facts outside TLC integer arithmetic; an exhaustive numeric sweep would be a different technique (DESIGN.md §7).'),
